@@ -16,7 +16,7 @@ Lemma other_sheet_premises :
   image en11 (names_of 0) env1 ref_a1 = true.
 Proof. vm_compute. repeat split. Qed.
 
-(* ---- update_defined_name still re-reads the stored formulas with the ACTIVE language / locale ---- *)
+(* ---- update_defined_name: the former witnesses of F67 (repaired in 0ec334c) ------------------------ *)
 Definition t_g : text := [71].
 Definition t_h : text := [72].
 Definition f_g : text := [83; 33; 36; 65; 36; 49].                      (* S!$A$1 *)
@@ -24,23 +24,15 @@ Definition env_g : penv := {| pe_sheets := [[83]]; pe_ctx_sheet := [83]; pe_defn
 Definition trim_g : ast := EFun 137 [EDefName t_g None f_g].           (* TRIM(G) *)
 Definition sum_g2 : ast := EFun 80 [EDefName t_g None f_g; ENum [50]].  (* SUM(G,2) *)
 
-(* French (decimal point): the stored text of TRIM(G) is read as MIRR(G): after renaming G to H the
-   cell holds MIRR(H), not TRIM(H) *)
-Lemma name_rename_refuted_language :
-  image (m_rc_of true) (names_of 0) env_g trim_g = true /\
+(* the premises of name_rename_in_formula hold for them, and under a French user / a comma-decimal
+   locale the stored text after renaming G to H is the print of TRIM(H) / SUM(H,2) *)
+Lemma name_rename_former_witnesses :
+  (image (m_rc_of true) (names_of 0) env_g trim_g = true /\ no_bad false trim_g = true /\ lower_stable (names_of 0) trim_g = true) /\
   formula_after_name_rename true (names_of 3) (names_of 0) env_g lower t_g None t_h (print (m_rc_of true) (names_of 0) trim_g)
-    = print (m_rc_of true) (names_of 0) (EFun 222 [EDefName t_h None f_g]) /\
-  print (m_rc_of true) (names_of 0) (EFun 222 [EDefName t_h None f_g]) <> print (m_rc_of true) (names_of 0) (rename lower t_g None t_h trim_g).
-Proof. repeat split; try (vm_compute; reflexivity). vm_compute. discriminate. Qed.
-
-(* a comma-decimal locale (English language): the stored SUM(G,2) does not parse with ';' as the
-   argument separator, the text is copied and still says G — which no longer exists *)
-Lemma name_rename_refuted_locale :
-  image (m_rc_of true) (names_of 0) env_g sum_g2 = true /\
+    = print (m_rc_of true) (names_of 0) (EFun 137 [EDefName t_h None f_g]) /\
   formula_after_name_rename false (names_of 0) (names_of 0) env_g lower t_g None t_h (print (m_rc_of true) (names_of 0) sum_g2)
-    = print (m_rc_of true) (names_of 0) sum_g2 /\
-  print (m_rc_of true) (names_of 0) sum_g2 <> print (m_rc_of true) (names_of 0) (rename lower t_g None t_h sum_g2).
-Proof. repeat split; try (vm_compute; reflexivity). vm_compute. discriminate. Qed.
+    = print (m_rc_of true) (names_of 0) (EFun 80 [EDefName t_h None f_g; ENum [50]]).
+Proof. repeat split; vm_compute; reflexivity. Qed.
 
 (* non-vacuity of the rename pass: =Name1+SUM(name1,Other) with Name1 -> Renamed *)
 Definition dn (n : text) := EDefName n None [83; 33; 65; 49].
